@@ -166,7 +166,7 @@ class C16(Check):
             "loss mode, dims, ops)")
     assumptions = ["samplers real; sklearn/xgboost real, single-threaded", "stub surrogate = importable MLSurrogateSampler subclass with scripted fit/predict",
                    "best-batch oracle accepts clipping or snapping ('confined to the space') and any parent tied at the batch_size-th lowest loss"]
-    quick = {"runs": 1400, "wall": 50, "item_timeout": 40}
+    quick = {"runs": 3000, "wall": 150, "item_timeout": 120}
     thorough = {"runs": 60000, "wall": 900, "item_timeout": 90}
 
     def gen(self, rng, tier, i):
